@@ -18,6 +18,18 @@ extern "C" void __sanitizer_set_report_fd(void *fd);
 #endif
 
 static FILE *g_res = nullptr;
+// The library calls exit() from a few places (z_div/c_div on a zero divisor, readers, bridge): report it as an outcome.
+extern char g_cur_op_kind[32];
+extern "C" void __sanitizer_set_death_callback(void (*cb)(void));
+static int g_resfd = -1;
+static void on_exit_handler() {
+    TaskCtx *t = g_task;
+    if (g_res && t && t->escape) { fprintf(g_res, "X library called exit() inside an API call op:%s\n", g_cur_op_kind); fflush(g_res); }
+}
+static void on_sanitizer_death() { // async-signal-safe enough: one write()
+    char b[96]; int n = snprintf(b, sizeof b, "X sanitizer-death op:%s\n", g_cur_op_kind);
+    if (g_resfd >= 0 && n > 0) { ssize_t w = write(g_resfd, b, (size_t)n); (void)w; }
+}
 
 static std::string outcome_json(const RunOutcome &o, const std::string &casepath) {
     std::ostringstream s;
@@ -58,7 +70,11 @@ int main(int argc, char **argv) {
         else if (a[0] != '-') prop = a;
     }
     // results on a private descriptor; the library's own chatter on stdout/stderr goes to /dev/null
-    int resfd = dup(1); g_res = fdopen(resfd, "w");
+    int resfd = dup(1); g_res = fdopen(resfd, "w"); g_resfd = resfd;
+    atexit(on_exit_handler);
+#ifdef HAVE_SAN
+    __sanitizer_set_death_callback(on_sanitizer_death);
+#endif
     int errfd = dup(2);
     if (!getenv("SIM_KEEP_STDIO")) { freopen("/dev/null", "w", stdout); freopen("/dev/null", "w", stderr); }
 #ifdef HAVE_SAN
